@@ -1,6 +1,9 @@
 /-
-C05 helper lemmas, part e: the newest-first run reaches EOF (nothing stays in unsentRRCs), with an explicit
-bound on the number of Fetch calls.  Core Lean only.
+C05 helper lemmas, part e: every run reaches EOF (nothing stays in unsentRRCs), in BOTH modes and for EVERY
+input (no well-formedness, no unique block ids), with an explicit bound on the number of Fetch calls.  Holds
+of `fetchRRCs` after the repair (`lastBlocks`: the last round hands out everything that was kept back); the
+only input condition left is the one the Go types give: timestamps are uint64 (needed in oldest-first mode
+only, where the last round's end time is math.MaxUint64).  Core Lean only.
 -/
 import SigModel.Model.Sched
 import SigModel.Lemmas.C05a
@@ -20,205 +23,236 @@ theorem takeWhile_all {α : Type} (p : α → Bool) : ∀ (l : List α), (∀ x 
     simp only [List.takeWhile_cons, hx, if_true]
     rw [takeWhile_all p xs (fun y hy => h y (List.mem_cons_of_mem _ hy))]
 
-/-- progress measure of the newest-first run -/
+/-- two disjoint sub-predicates of `q` select together no more than `q` -/
+theorem filter_split_le {α : Type} (q q1 q2 : α → Bool) (h1 : ∀ x, q1 x = true → q x = true)
+    (h2 : ∀ x, q2 x = true → q x = true) (hd : ∀ x, q1 x = true → q2 x = true → False) :
+    ∀ (l : List α), (l.filter q1).length + (l.filter q2).length ≤ (l.filter q).length
+  | [] => by simp
+  | x :: xs => by
+    have ih := filter_split_le q q1 q2 h1 h2 hd xs
+    have c1 := h1 x
+    have c2 := h2 x
+    have c3 := hd x
+    simp only [List.filter_cons]
+    cases e1 : q1 x <;> cases e2 : q2 x <;> cases e : q x <;>
+      simp only [e1, e2, e, if_true, if_false, Bool.false_eq_true, List.length_cons, forall_const,
+        not_true_eq_false, not_false_eq_true, false_implies, implies_true, imp_false] at c1 c2 c3 ⊢ <;>
+      omega
+
+/-- progress measure of a run -/
 def mu (st : St) : Nat :=
   2 * (st.unproc.length + st.remaining.length + (pending st).length) + (if st.unsent.isEmpty then 0 else 1)
 
-/-- every record already read lies at or above the cut-off, or above the start of a still-listed request -/
-def Low (st : St) : Prop :=
-  ∀ r, (r ∈ st.unsent ∨ ∃ b ∈ st.remaining, r ∈ b.recs) →
-    st.cutoff ≤ r.2 ∨ ∃ s ∈ st.unproc, s.start ≤ r.2
+/-- a refill hands out and leaves pending no more blocks than were pending (for ANY input: with repeated block
+ids or blocks outside their segment's range some are lost — never gained) -/
+theorem pending_refillCons_le (m : Mode) (st : St) (front : Seg) :
+    (newBlocks m st front).1.length + (pending (refillCons m st front)).length ≤ (pending st).length := by
+  have hsubL : (newBlocks m st front).1.Sublist (st.unproc.flatMap (·.blocks)) :=
+    (gf_sublist m _ _ _).trans (filter_flatMap_sublist _ _ _)
+  have hall : ∀ b ∈ (newBlocks m st front).1,
+      (fun (b : Block) => !st.processed.contains b.id && (newBlocks m st front).2.contains b.id) b = true := by
+    intro b hb
+    have h1 := (gf_mem m _ _ _ b hb).2.1
+    have h2 := gf_ids m _ _ _ b hb
+    have h2' : b.id ∈ (newBlocks m st front).2 := h2
+    simp [h1, h2']
+  have h1 : (newBlocks m st front).1.length ≤
+      ((st.unproc.flatMap (·.blocks)).filter
+        (fun (b : Block) => !st.processed.contains b.id && (newBlocks m st front).2.contains b.id)).length := by
+    have := hsubL.filter (fun (b : Block) => !st.processed.contains b.id && (newBlocks m st front).2.contains b.id)
+    rw [List.filter_eq_self.mpr hall] at this
+    exact this.length_le
+  have h2 : (pending (refillCons m st front)).length ≤
+      ((st.unproc.flatMap (·.blocks)).filter (fun (b : Block) => !(newBlocks m st front).2.contains b.id)).length := by
+    have hs : ((st.unproc.filter (fun s => !willProcessQSRCompletely m (segLast m front) s)).flatMap (·.blocks)).Sublist
+        (st.unproc.flatMap (·.blocks)) := filter_flatMap_sublist _ _ _
+    exact (hs.filter (fun (b : Block) => !(newBlocks m st front).2.contains b.id)).length_le
+  have h3 := filter_split_le (fun (b : Block) => !st.processed.contains b.id)
+    (fun (b : Block) => !st.processed.contains b.id && (newBlocks m st front).2.contains b.id)
+    (fun (b : Block) => !(newBlocks m st front).2.contains b.id)
+    (by intro b hb; simp only [Bool.and_eq_true] at hb; exact hb.1)
+    (by
+      intro b hb
+      have hn : b.id ∉ (newBlocks m st front).2 := by simpa using hb
+      have : b.id ∉ st.processed := fun hp => hn (gf_mono m _ _ _ _ hp)
+      simpa using this)
+    (by
+      intro b hb1 hb2
+      simp only [Bool.and_eq_true] at hb1
+      rw [hb1.2] at hb2
+      cases hb2)
+    (st.unproc.flatMap (·.blocks))
+  have h4 : (pending st).length =
+      ((st.unproc.flatMap (·.blocks)).filter (fun (b : Block) => !st.processed.contains b.id)).length := rfl
+  omega
 
-/-- the cut-off lies below … every still-listed request starts below the cut-off -/
-def Mono2 (st : St) : Prop := ∀ s ∈ st.unproc, s.start < st.cutoff
+/-- what the searcher holds comes from the input (no well-formedness needed) -/
+structure InvE (segs : List Seg) (st : St) : Prop where
+  unproc_sub : ∀ s ∈ st.unproc, s ∈ segs
+  rem_sub : ∀ b ∈ st.remaining, b ∈ allBlocks segs
+  unsent_sub : ∀ r ∈ st.unsent, r ∈ allRecs segs
+  gotAll_unproc : st.gotAll = true → st.unproc = []
 
-/-- invariant behind termination (newest first), between two Fetch calls -/
-structure InvT (st : St) : Prop where
-  gb_rem : st.gotBlocks = true → st.remaining ≠ []
-  low : Low st
-  mono : (st.gotBlocks = false ∧ st.unsent = [] ∧ st.remaining = []) ∨ Mono2 st
+/-- between two Fetch calls: blocks were obtained only if some are left -/
+def GbRem (st : St) : Prop := st.gotBlocks = true → st.remaining ≠ []
 
-theorem invT_init (segs : List Seg) : InvT (init .recentFirst segs) where
-  gb_rem := by simp [init]
-  low := by intro r hr; simp [init] at hr
-  mono := by left; simp [init]
+theorem invE_init (m : Mode) (segs : List Seg) : InvE segs (init m segs) where
+  unproc_sub := by
+    intro s hs
+    exact (mem_sortBy m (segFirst m) segs s).mp hs
+  rem_sub := by simp [init]
+  unsent_sub := by simp [init]
+  gotAll_unproc := by simp [init]
 
-theorem refill_T (segs : List Seg) (hwf : WF segs) (st : St) (hp : InvP segs st) (h : InvT st) :
-    Low (refill .recentFirst st) ∧ Mono2 (refill .recentFirst st) ∧
-    mu (refill .recentFirst st) ≤ mu st ∧
-    (st.gotBlocks = false → st.unproc ≠ [] → mu (refill .recentFirst st) + 2 ≤ mu st) ∧
-    (st.gotBlocks = false → st.unproc = [] →
-        (refill .recentFirst st).gotAll = true ∧ (refill .recentFirst st).unproc = []) ∧
-    (st.gotBlocks = true → refill .recentFirst st = st) := by
+theorem gbRem_init (m : Mode) (segs : List Seg) : GbRem (init m segs) := by
+  intro h; simp [init] at h
+
+theorem mem_allRecs {segs : List Seg} {b : Block} {r : Rec} (hb : b ∈ allBlocks segs) (hr : r ∈ b.recs) :
+    r ∈ allRecs segs := by
+  unfold allRecs
+  exact List.mem_flatMap.mpr ⟨b, hb, hr⟩
+
+theorem refill_E (m : Mode) (segs : List Seg) (st : St) (h : InvE segs st) :
+    InvE segs (refill m st) ∧
+    mu (refill m st) ≤ mu st ∧
+    (st.gotBlocks = false → st.unproc ≠ [] → mu (refill m st) + 2 ≤ mu st) ∧
+    (st.gotBlocks = false → st.unproc = [] → (refill m st).gotAll = true) ∧
+    (st.gotBlocks = true → refill m st = st) := by
   rw [refill_eq]
   split
   · rename_i hgb
-    have hm2 : Mono2 st := by
-      rcases h.mono with ⟨hg, _, _⟩ | hm
-      · rw [hg] at hgb; cases hgb
-      · exact hm
-    refine ⟨h.low, hm2, Nat.le_refl _, ?_, ?_, fun _ => rfl⟩ <;> intro hg <;> rw [hg] at hgb <;> cases hgb
+    refine ⟨h, Nat.le_refl _, ?_, ?_, fun _ => rfl⟩ <;> intro hg <;> rw [hg] at hgb <;> cases hgb
   · rename_i hgb
     split
     · rename_i hun
-      have hlen : (sortBlocks .recentFirst st.remaining).length = st.remaining.length :=
+      have hlen : (sortBlocks m st.remaining).length = st.remaining.length :=
         (sortBy_perm _ _ _).length_eq
-      refine ⟨?_, ?_, ?_, ?_, ?_, ?_⟩
-      · intro r hr
-        apply h.low r
-        rcases hr with hr | ⟨b, hb, hrb⟩
-        · exact Or.inl hr
-        · exact Or.inr ⟨b, (mem_sortBy _ _ _ b).mp hb, hrb⟩
-      · intro s hs
-        have : s ∈ st.unproc := hs
-        rw [hun] at this; cases this
-      · have : mu (refillNil .recentFirst st) = mu st := by
+      refine ⟨⟨?_, ?_, h.unsent_sub, fun _ => hun⟩, ?_, ?_, ?_, ?_⟩
+      · simpa [refillNil] using h.unproc_sub
+      · intro b hb
+        exact h.rem_sub b ((mem_sortBy m _ _ b).mp hb)
+      · have : mu (refillNil m st) = mu st := by
           unfold mu
-          show 2 * (st.unproc.length + (sortBlocks .recentFirst st.remaining).length + (pending st).length) + _ = _
+          show 2 * (st.unproc.length + (sortBlocks m st.remaining).length + (pending st).length) + _ = _
           rw [hlen]; rfl
         omega
       · intro _ hne; exact absurd hun hne
-      · intro _ _; exact ⟨rfl, hun⟩
+      · intro _ _; rfl
       · intro hg; exact absurd hg hgb
     · rename_i front tl hun
-      have hsplit := (pending_split .recentFirst segs hwf st hp front).length_eq
-      rw [List.length_append] at hsplit
-      have hlen : (sortBlocks .recentFirst ((newBlocks .recentFirst st front).1 ++ st.remaining)).length =
-          (newBlocks .recentFirst st front).1.length + st.remaining.length := by
+      have hle := pending_refillCons_le m st front
+      have hlen : (sortBlocks m ((newBlocks m st front).1 ++ st.remaining)).length =
+          (newBlocks m st front).1.length + st.remaining.length := by
         unfold sortBlocks
         rw [(sortBy_perm _ _ _).length_eq, List.length_append]
       have hfront : front ∈ st.unproc := by rw [hun]; exact List.mem_cons_self
-      have hunlen : (st.unproc.filter (fun s => !willProcessQSRCompletely .recentFirst (segLast .recentFirst front) s)).length
+      have hunlen : (st.unproc.filter (fun s => !willProcessQSRCompletely m (segLast m front) s)).length
           + 1 ≤ st.unproc.length := by
-        have : (st.unproc.filter (fun s => !willProcessQSRCompletely .recentFirst (segLast .recentFirst front) s)).length
+        have : (st.unproc.filter (fun s => !willProcessQSRCompletely m (segLast m front) s)).length
             < st.unproc.length := by
           apply List.length_filter_lt_length_iff_exists.mpr
           refine ⟨front, hfront, ?_⟩
           simp [willProcessQSRCompletely, before_irrefl]
         omega
-      have hcut : ∀ r, (r ∈ st.unsent ∨ ∃ b ∈ st.remaining, r ∈ b.recs) → st.cutoff ≤ r.2 → front.start ≤ r.2 := by
-        intro r hr hc
-        rcases h.mono with ⟨_, hu, hrm⟩ | hm
-        · rcases hr with hr | ⟨b, hb, _⟩
-          · rw [hu] at hr; cases hr
-          · rw [hrm] at hb; cases hb
-        · have := hm front hfront
-          omega
-      -- a record known to lie above the start of a listed request
-      have hseg : ∀ (r : Rec) (s : Seg), s ∈ st.unproc → s.start ≤ r.2 →
-          front.start ≤ r.2 ∨ ∃ s' ∈ st.unproc.filter (fun s => !willProcessQSRCompletely .recentFirst (segLast .recentFirst front) s),
-            s'.start ≤ r.2 := by
-        intro r s hs hsr
-        cases hw : willProcessQSRCompletely .recentFirst (segLast .recentFirst front) s with
-        | false => exact Or.inr ⟨s, List.mem_filter.mpr ⟨hs, by simp [hw]⟩, hsr⟩
-        | true =>
-          left
-          have : front.start ≤ s.start := by
-            simpa [willProcessQSRCompletely, segLast] using hw
-          omega
-      refine ⟨?_, ?_, ?_, ?_, ?_, ?_⟩
-      · intro r hr
-        show front.start ≤ r.2 ∨ ∃ s ∈ st.unproc.filter _, s.start ≤ r.2
-        have hold : ∀ r, (r ∈ st.unsent ∨ ∃ b ∈ st.remaining, r ∈ b.recs) →
-            front.start ≤ r.2 ∨ ∃ s ∈ st.unproc.filter (fun s => !willProcessQSRCompletely .recentFirst (segLast .recentFirst front) s), s.start ≤ r.2 := by
-          intro r hr
-          rcases h.low r hr with hc | ⟨s, hs, hsr⟩
-          · exact Or.inl (hcut r hr hc)
-          · exact hseg r s hs hsr
-        rcases hr with hr | ⟨b, hb, hrb⟩
-        · exact hold r (Or.inl hr)
-        · have hb' := (mem_sortBy _ _ _ b).mp hb
-          rcases List.mem_append.mp hb' with hb' | hb'
-          · rcases (new_spec .recentFirst st front b hb').1 with ⟨s, hs, hbs⟩
-            have hsok := hwf s (hp.unproc_sub s hs) b hbs
-            have := hsok.2.2.2 r hrb
-            exact hseg r s hs (by omega)
-          · exact hold r (Or.inr ⟨b, hb', hrb⟩)
+      refine ⟨⟨?_, ?_, h.unsent_sub, ?_⟩, ?_, ?_, ?_, ?_⟩
       · intro s hs
-        have := (List.mem_filter.mp hs).2
-        show s.start < front.start
-        have h2 : ¬ (front.start ≤ s.start) := by
-          simpa [willProcessQSRCompletely, segLast] using this
-        omega
+        exact h.unproc_sub s (List.mem_filter.mp hs).1
+      · intro b hb
+        have hb' := (mem_sortBy m _ _ b).mp hb
+        rcases List.mem_append.mp hb' with hb' | hb'
+        · rcases (new_spec m st front b hb').1 with ⟨s, hs, hbs⟩
+          exact mem_allBlocks.mpr ⟨s, h.unproc_sub s hs, hbs⟩
+        · exact h.rem_sub b hb'
+      · intro hg
+        have hg' : st.gotAll = true := hg
+        have := h.gotAll_unproc hg'
+        rw [hun] at this
+        cases this
       · unfold mu
-        show 2 * ((st.unproc.filter _).length + (sortBlocks .recentFirst _).length + (pending (refillCons .recentFirst st front)).length) + _ ≤ _
+        show 2 * ((st.unproc.filter _).length + (sortBlocks m _).length + (pending (refillCons m st front)).length) + _ ≤ _
         rw [hlen]
-        have : (refillCons .recentFirst st front).unsent = st.unsent := rfl
+        have : (refillCons m st front).unsent = st.unsent := rfl
         rw [this]
         omega
       · intro _ _
         unfold mu
-        show 2 * ((st.unproc.filter _).length + (sortBlocks .recentFirst _).length + (pending (refillCons .recentFirst st front)).length) + _ + 2 ≤ _
+        show 2 * ((st.unproc.filter _).length + (sortBlocks m _).length + (pending (refillCons m st front)).length) + _ + 2 ≤ _
         rw [hlen]
-        have : (refillCons .recentFirst st front).unsent = st.unsent := rfl
+        have : (refillCons m st front).unsent = st.unsent := rfl
         rw [this]
         omega
       · intro _ hnil; rw [hun] at hnil; cases hnil
       · intro hg; exact absurd hg hgb
 
-theorem fNext_T (mb : Nat) (st : St) (hl : Low st) (hm : Mono2 st) (hgb : st.gotBlocks = true) :
-    InvT (fNext .recentFirst mb st) ∧
-    (st.remaining ≠ [] → mu (fNext .recentFirst mb st) + 1 ≤ mu st) ∧
-    mu (fNext .recentFirst mb st) ≤ mu st + 1 ∧
-    (st.remaining = [] → st.unproc = [] → st.unsent ≠ [] → mu (fNext .recentFirst mb st) + 1 ≤ mu st) := by
-  have hsplit := fOut_unsent .recentFirst mb st
-  have hlen_take : (getNextBlocks .recentFirst st.remaining mb).1.length ≤ st.remaining.length := by
-    have := congrArg List.length (nb_take .recentFirst st.remaining mb)
+/-- the last round's end time lets every uint64 timestamp through -/
+theorem flush_keeps (m : Mode) (x : Rec) (hfit : m = .recentLast → x.2 ≤ maxU64) :
+    (!m.before (flushEnd m) x.2) = true := by
+  cases m with
+  | recentFirst => simp [flushEnd, Mode.before]
+  | recentLast =>
+    have := hfit rfl
+    simp only [flushEnd, Mode.before, Bool.not_eq_true']
+    exact decide_eq_false (Nat.not_lt.mpr this)
+
+theorem fNext_E (m : Mode) (mb : Nat) (segs : List Seg) (st : St) (h : InvE segs st) :
+    InvE segs (fNext m mb st) ∧ GbRem (fNext m mb st) ∧
+    (st.remaining ≠ [] → mu (fNext m mb st) + 1 ≤ mu st) ∧
+    mu (fNext m mb st) ≤ mu st + 1 ∧
+    (st.remaining = [] → st.gotAll = true → st.unsent ≠ [] →
+      (m = .recentLast → ∀ r ∈ st.unsent, r.2 ≤ maxU64) → mu (fNext m mb st) + 1 ≤ mu st) := by
+  have hsplit := fOut_unsent m mb st
+  have hlen_take : (getNextBlocks m st.remaining mb).1.length ≤ st.remaining.length := by
+    have := congrArg List.length (nb_take m st.remaining mb)
     rw [List.length_take] at this
     omega
-  have hrem_len : (fNext .recentFirst mb st).remaining.length =
-      st.remaining.length - (getNextBlocks .recentFirst st.remaining mb).1.length := by
+  have hrem_len : (fNext m mb st).remaining.length =
+      st.remaining.length - (getNextBlocks m st.remaining mb).1.length := by
     show (st.remaining.drop _).length = _
     rw [List.length_drop]
   have hflag : ∀ (l : List Rec), (if l.isEmpty then 0 else 1) ≤ 1 := by
     intro l; split <;> omega
-  refine ⟨⟨?_, ?_, Or.inr hm⟩, ?_, ?_, ?_⟩
-  · intro hg hnil
-    have hg' : (if (st.remaining.drop (getNextBlocks .recentFirst st.remaining mb).1.length).isEmpty
-        || fEnd .recentFirst mb st == st.cutoff then false else st.gotBlocks) = true := hg
-    have hnil' : st.remaining.drop (getNextBlocks .recentFirst st.remaining mb).1.length = [] := hnil
-    simp [hnil'] at hg'
+  refine ⟨⟨h.unproc_sub, ?_, ?_, h.gotAll_unproc⟩, ?_, ?_, ?_, ?_⟩
+  · intro b hb
+    exact h.rem_sub b (List.mem_of_mem_drop hb)
   · intro r hr
-    show st.cutoff ≤ r.2 ∨ ∃ s ∈ st.unproc, s.start ≤ r.2
-    apply hl r
-    rcases hr with hr | ⟨b, hb, hrb⟩
-    · have : r ∈ fMerged .recentFirst mb st := by rw [← hsplit]; exact List.mem_append_right _ hr
-      rcases (mem_fMerged .recentFirst mb st r).mp this with ⟨b, hb, hrb⟩ | hu
-      · exact Or.inr ⟨b, mem_next_blocks .recentFirst mb st b hb, hrb⟩
-      · exact Or.inl hu
-    · exact Or.inr ⟨b, List.mem_of_mem_drop hb, hrb⟩
+    have : r ∈ fMerged m mb st := by rw [← hsplit]; exact List.mem_append_right _ hr
+    rcases (mem_fMerged m mb st r).mp this with ⟨b, hb, hrb⟩ | hu
+    · exact mem_allRecs (h.rem_sub b (mem_next_blocks m mb st b hb)) hrb
+    · exact h.unsent_sub r hu
+  · intro hg hnil
+    have hg' : (if (st.remaining.drop (getNextBlocks m st.remaining mb).1.length).isEmpty
+        || fEnd m mb st == st.cutoff then false else st.gotBlocks) = true := hg
+    have hnil' : st.remaining.drop (getNextBlocks m st.remaining mb).1.length = [] := hnil
+    simp [hnil'] at hg'
   · intro hne
-    have hpos := nb_pos .recentFirst st.remaining mb hne
+    have hpos := nb_pos m st.remaining mb hne
     unfold mu
     rw [pending_fNext, hrem_len]
     show 2 * (st.unproc.length + _ + _) + _ + 1 ≤ _
-    have := hflag (fNext .recentFirst mb st).unsent
+    have := hflag (fNext m mb st).unsent
     have := hflag st.unsent
     omega
   · unfold mu
     rw [pending_fNext, hrem_len]
     show 2 * (st.unproc.length + _ + _) + _ ≤ _
-    have := hflag (fNext .recentFirst mb st).unsent
+    have := hflag (fNext m mb st).unsent
     omega
-  · intro hrem hun hus
-    -- nothing is read, the end time is the cut-off and every unsent record lies at or above it
-    have hnb : getNextBlocks .recentFirst st.remaining mb = ([], 0) := by rw [hrem]; rfl
-    have hmerged : fMerged .recentFirst mb st = st.unsent := by
+  · intro hrem hga hus hfit
+    -- the last round with nothing left to read: everything kept back is handed out
+    have hnb : getNextBlocks m st.remaining mb = ([], 0) := by rw [hrem]; rfl
+    have hmerged : fMerged m mb st = st.unsent := by
       unfold fMerged
       rw [hnb]
       simp [sortRRCs, sortBy]
-    have hend : fEnd .recentFirst mb st = st.cutoff := by
-      unfold fEnd; rw [hnb]; simp [clampEnd]
-    have hout : fOut .recentFirst mb st = st.unsent := by
+    have hend : fEnd m mb st = flushEnd m := fEnd_last m mb st (fLast_of_nil m mb st hrem hga)
+    have hout : fOut m mb st = st.unsent := by
       unfold fOut getValidRRCs
       rw [hmerged, hend]
       apply takeWhile_all
       intro x hx
-      rcases hl x (Or.inl hx) with hc | ⟨s, hs, _⟩
-      · simp [Mode.before]; omega
-      · rw [hun] at hs; cases hs
-    have huns : (fNext .recentFirst mb st).unsent = [] := by
-      show (fMerged .recentFirst mb st).drop (fOut .recentFirst mb st).length = []
+      exact flush_keeps m x (fun hm => hfit hm x hx)
+    have huns : (fNext m mb st).unsent = [] := by
+      show (fMerged m mb st).drop (fOut m mb st).length = []
       rw [hmerged, hout]; simp
     unfold mu
     rw [pending_fNext, hrem_len, huns]
@@ -230,12 +264,12 @@ theorem fNext_T (mb : Nat) (st : St) (hl : Low st) (hm : Mono2 st) (hgb : st.got
     show 2 * (st.unproc.length + _ + _) + 0 + 1 ≤ _
     omega
 
-/-- every successful newest-first Fetch strictly decreases the measure and keeps the invariants -/
-theorem fetch_T (segs : List Seg) (hwf : WF segs) (mb : Nat) (st : St) (hp : InvP segs st) (h : InvT st)
-    (out : List Rec) (st' : St) (hf : fetch .recentFirst mb st = some (out, st')) :
-    InvP segs st' ∧ InvT st' ∧ mu st' < mu st := by
-  have hr := refill_T segs hwf st hp h
-  have hrp := (refill_perm .recentFirst segs hwf st hp).1
+/-- every successful Fetch strictly decreases the measure and keeps the invariants -/
+theorem fetch_E (m : Mode) (segs : List Seg) (hfit : m = .recentLast → ∀ r ∈ allRecs segs, r.2 ≤ maxU64)
+    (mb : Nat) (st : St) (h : InvE segs st) (hg : GbRem st)
+    (out : List Rec) (st' : St) (hf : fetch m mb st = some (out, st')) :
+    InvE segs st' ∧ GbRem st' ∧ mu st' < mu st := by
+  have hr := refill_E m segs st h
   unfold fetch at hf
   rw [fetchRRCs_eq] at hf
   split at hf
@@ -244,55 +278,57 @@ theorem fetch_T (segs : List Seg) (hwf : WF segs) (mb : Nat) (st : St) (hp : Inv
     injection hf with hf
     injection hf with h1 h2
     subst h1; subst h2
-    have hn := fNext_T mb (refill .recentFirst st) hr.1 hr.2.1 (refill_gotBlocks _ st)
-    refine ⟨fNext_invP _ mb segs _ hrp, hn.1, ?_⟩
+    have hn := fNext_E m mb segs (refill m st) hr.1
+    refine ⟨hn.1, hn.2.1, ?_⟩
     cases hgb : st.gotBlocks with
     | true =>
-      have heq := hr.2.2.2.2.2 hgb
-      have hrem : (refill .recentFirst st).remaining ≠ [] := by rw [heq]; exact h.gb_rem hgb
-      have := hn.2.1 hrem
-      have := hr.2.2.1
+      have heq := hr.2.2.2.2 hgb
+      have hrem : (refill m st).remaining ≠ [] := by rw [heq]; exact hg hgb
+      have := hn.2.2.1 hrem
+      have := hr.2.1
       omega
     | false =>
       by_cases hun : st.unproc = []
-      · have hga := hr.2.2.2.2.1 hgb hun
-        by_cases hrem : (refill .recentFirst st).remaining = []
-        · have hus : (refill .recentFirst st).unsent ≠ [] := by
+      · have hga := hr.2.2.2.1 hgb hun
+        by_cases hrem : (refill m st).remaining = []
+        · have hus : (refill m st).unsent ≠ [] := by
             intro hus
             apply hne
-            simp [hrem, hus, hga.1]
-          have := hn.2.2.2 hrem hga.2 hus
-          have := hr.2.2.1
+            simp [hrem, hus, hga]
+          have := hn.2.2.2.2 hrem hga hus
+            (fun hm r hr' => hfit hm r (hr.1.unsent_sub r hr'))
+          have := hr.2.1
           omega
-        · have := hn.2.1 hrem
-          have := hr.2.2.1
+        · have := hn.2.2.1 hrem
+          have := hr.2.1
           omega
-      · have := hr.2.2.2.1 hgb hun
-        have := hn.2.2.1
+      · have := hr.2.2.1 hgb hun
+        have := hn.2.2.2.1
         omega
 
-theorem run_eof (segs : List Seg) (hwf : WF segs) (mb : Nat) :
-    ∀ (fuel : Nat) (st : St), InvP segs st → InvT st → mu st < fuel →
-      (runFetch .recentFirst mb fuel st).2 = true
+theorem run_eof (m : Mode) (segs : List Seg) (hfit : m = .recentLast → ∀ r ∈ allRecs segs, r.2 ≤ maxU64)
+    (mb : Nat) :
+    ∀ (fuel : Nat) (st : St), InvE segs st → GbRem st → mu st < fuel →
+      (runFetch m mb fuel st).2 = true
   | 0, _, _, _, hlt => by omega
-  | fuel + 1, st, hp, h, hlt => by
+  | fuel + 1, st, h, hg, hlt => by
     simp only [runFetch]
-    cases hf : fetch .recentFirst mb st with
+    cases hf : fetch m mb st with
     | none => rfl
     | some p =>
       rcases p with ⟨out, st'⟩
-      have hs := fetch_T segs hwf mb st hp h out st' hf
-      exact run_eof segs hwf mb fuel st' hs.1 hs.2.1 (by omega)
+      have hs := fetch_E m segs hfit mb st h hg out st' hf
+      exact run_eof m segs hfit mb fuel st' hs.1 hs.2.1 (by omega)
 
-theorem mu_init (segs : List Seg) : mu (init .recentFirst segs) = 2 * (segs.length + (allBlocks segs).length) := by
-  have hp : pending (init .recentFirst segs) = (sortSegs .recentFirst segs).flatMap (·.blocks) := by
+theorem mu_init (m : Mode) (segs : List Seg) : mu (init m segs) = 2 * (segs.length + (allBlocks segs).length) := by
+  have hp : pending (init m segs) = (sortSegs m segs).flatMap (·.blocks) := by
     simp [pending, init]
-  have h1 : (sortSegs .recentFirst segs).length = segs.length := (sortBy_perm _ _ segs).length_eq
-  have h2 : ((sortSegs .recentFirst segs).flatMap (·.blocks)).length = (allBlocks segs).length :=
+  have h1 : (sortSegs m segs).length = segs.length := (sortBy_perm _ _ segs).length_eq
+  have h2 : ((sortSegs m segs).flatMap (·.blocks)).length = (allBlocks segs).length :=
     (List.Perm.flatMap_right _ (sortBy_perm _ _ segs)).length_eq
   unfold mu
   rw [hp, h2]
-  show 2 * ((sortSegs .recentFirst segs).length + 0 + _) + 0 = _
+  show 2 * ((sortSegs m segs).length + 0 + _) + 0 = _
   rw [h1]
   omega
 
